@@ -175,11 +175,16 @@ class FieldData:
 
   def _set_existing_field(self, fieldname, value, set_reference = False):
     renaming_connected = False
-    if value is not None and self.vlevel >= 3:
-      # (validated first: an invalid value shall leave everything unchanged)
-      self._field_or_default_datatype(fieldname, value)
-      gfapy.Field._validate_gfa_field(value, self._field_datatype(fieldname),
-          fieldname)
+    new_datatype = None
+    if value is not None:
+      if self._field_datatype(fieldname) is None:
+        # (a tag without datatype, e.g. deleted before: the default one for
+        # the value is used and recorded once the value is accepted)
+        new_datatype = gfapy.Field._get_default_gfa_tag_datatype(value)
+      if self.vlevel >= 3:
+        # (validated first: an invalid value shall leave everything unchanged)
+        gfapy.Field._validate_gfa_field(value,
+            new_datatype or self._field_datatype(fieldname), fieldname)
     if self._gfa:
       if not set_reference and \
         (fieldname in self.__class__.REFERENCE_FIELDS or \
@@ -218,6 +223,8 @@ class FieldData:
         # as in delete(): the datatype of a removed tag is forgotten
         self._datatype.pop(fieldname)
     else:
+      if new_datatype is not None:
+        self._datatype[fieldname] = new_datatype
       self._data[fieldname] = value
     if renaming_connected:
       self._gfa._register_line(self)
